@@ -303,3 +303,9 @@ Proof.
   - repeat split; reflexivity.
   - repeat split; try reflexivity; lia.
 Qed.
+
+(* the size the DCD object reports (used for the Authenticate Data block) is the number of bytes it exports *)
+Lemma dcd_obj_sized ver cmds : Forall dcmd_wf cmds -> dcd_size (dcd_obj ver cmds) = hlen (dcd_bytes ver cmds).
+Proof.
+  intros HF. rewrite dcd_obj_size. unfold dcd_bytes. rewrite hlen_app, hlen_hdr. now rewrite (proj1 (hlen_cmds_bytes cmds HF)).
+Qed.
